@@ -842,6 +842,11 @@ def acceptance(case, calls, flat, stats):
 def completion(case, calls, flat, stats):
     """C01: finishes exactly when the last outstanding completion is delivered; running; final state"""
     out = []
+    for ci, c in enumerate(calls):
+        if c.get("stale_var"):
+            for p in ("C04", "C05", "C13"):
+                out.append({"prop": p, "rule": "stale_access_function", "msg": "call %d %r: %s" % (ci, c["op"], c["stale_var"][0])})
+            break
     # from an accepted start() on, every callback of the order (notification, variable query) sees running == True
     by_start = False
     for ci, c in enumerate(calls):
@@ -910,7 +915,7 @@ def fanout(case, calls, flat, stats):
     for ci, c in enumerate(calls):
         op = c["op"]
         if op["op"] == "witness":
-            for p in ("C20", "C18", "C17"):
+            for p in ("C20", "C18", "C17", "C04", "C13"):
                 out.append({"prop": p, "rule": "other_scheduler_reached", "msg": "another scheduler of the same process (never started) was reached by this run: %r" % (c.get("witness_events"),)})
             continue
         if op["op"] == "reg":
